@@ -347,15 +347,16 @@ Lemma flush_dbc_spec : forall s, wf s ->
   same_set (flush_dbc s)
     (match c_d s, c_c s with
      | Some l, CVal _ => l
+     | Some l, CNoValue => l
      | _, _ => db_c s
      end).
 Proof.
   intros s W o. rewrite flush_dbc_In, hist_c_eq.
-  destruct (c_d s) as [l|] eqn:D; [|cbn; tauto].
+  destruct (c_d s) as [l|] eqn:D; [|cbn; destruct (c_c s); tauto].
   destruct (c_c s) as [| | |p] eqn:C; cbn [from_collection fst snd].
   - cbn. tauto.
+  - destruct (wf_c_kind s W) as [_ H]. rewrite (H C). cbn. tauto.
   - destruct (wf_c_kind s W) as [H _]. congruence.
-  - destruct (wf_c_kind s W) as [_ H]. congruence.
   - pose proof (wf_c_comm s W p C o) as S.
     rewrite !filter_In, !negb_true_iff.
     rewrite <- S. rewrite <- !memb_In.
@@ -383,7 +384,6 @@ Proof.
   intros s l W D o. rewrite (flush_dbc_spec s W o), D.
   destruct (c_c s) eqn:C; try tauto.
   - apply (wf_c_clean s W l C D).
-  - destruct (wf_c_kind s W); congruence.
   - destruct (wf_c_kind s W); congruence.
 Qed.
 
@@ -476,6 +476,100 @@ Proof.
     intros l D. rewrite (flush_dbc_ext s _ CD CC DC). apply flush_dbc_cur; [exact W|congruence].
 Qed.
 
+(* ---------- keyed dict operations ---------- *)
+Lemma before_pop_wf : forall s, wf s -> (c_d s = None -> c_c s = NoHist -> db_c s = []) ->
+  wf (before_pop s) /\ c_c (before_pop s) <> NoHist /\ c_d (before_pop s) = c_d s.
+Proof.
+  intros s W N. dstate s. unfold before_pop, mod_c in *. cbn in *.
+  destruct cd, cc; cbn in *; (split; [|split; [discriminate || congruence|reflexivity]]); wfsolve;
+    try (rewrite N by reflexivity; auto).
+Qed.
+
+Lemma dirty_none : forall s, c_c s <> NoHist -> (c_d s = None -> c_c s = NoHist -> db_c s = []).
+Proof. intros s H _ K. contradiction. Qed.
+
+Lemma dict_setitem_wf : forall o s, wf s -> (c_d s = None -> c_c s = NoHist -> db_c s = []) ->
+  wf (dict_setitem o s) /\ c_c (dict_setitem o s) <> NoHist.
+Proof.
+  intros o s W N. unfold dict_setitem.
+  assert (D : forall l' t, c_c (set_c_d (Some l') (coll_event t)) <> NoHist).
+  { intros l' t. dstate t. unfold coll_event, mod_c. cbn. destruct cd, cc; cbn; discriminate. }
+  destruct (same_key o (cur_coll s)).
+  - split; [apply coll_event_idem_wf; assumption|].
+    pose proof (D (map (fun p => if ckey p =? ckey o then o else p) (cur_coll s)) (coll_event s)) as H. exact H.
+  - split; [apply (coll_event_wf s W N)|apply D].
+Qed.
+
+Lemma update_fold_wf : forall l s, wf s -> (c_d s = None -> c_c s = NoHist -> db_c s = []) ->
+  wf (fold_left update_one l s).
+Proof.
+  induction l as [|o rest IH]; intros s W N; cbn [fold_left]; [exact W|].
+  assert (K : wf (update_one s o) /\ (c_d (update_one s o) = None -> c_c (update_one s o) = NoHist -> db_c (update_one s o) = [])).
+  { unfold update_one. destruct (holder o (cur_coll s)) as [p|].
+    - destruct (p =? o); [split; assumption|].
+      destruct (dict_setitem_wf o s W N) as [A B]. split; [exact A|apply dirty_none; exact B].
+    - destruct (dict_setitem_wf o s W N) as [A B]. split; [exact A|apply dirty_none; exact B]. }
+  destruct K as [K1 K2]. apply IH; assumption.
+Qed.
+
+Lemma c_pop_wf : forall d o s, wf s -> wf (fst (c_pop d o s)).
+Proof.
+  intros d o s W. unfold c_pop.
+  pose proof (coll_touch_wf s W) as W1. pose proof (coll_touch_ok s W) as OK.
+  pose proof (coll_touch_none s W) as N.
+  destruct (coll_touch s) as [s1 ok]. cbn [fst snd] in *. subst ok. cbn [negb].
+  destruct (before_pop_wf s1 W1 N) as (W2 & D2 & _).
+  destruct (holder o (cur_coll s1)); [|destruct d; exact W2].
+  apply (coll_event_wf _ W2 (dirty_none _ D2)).
+Qed.
+
+Lemma c_popitem_wf : forall s, wf s -> wf (fst (c_popitem s)).
+Proof.
+  intros s W. unfold c_popitem.
+  pose proof (coll_touch_wf s W) as W1. pose proof (coll_touch_ok s W) as OK.
+  pose proof (coll_touch_none s W) as N.
+  destruct (coll_touch s) as [s1 ok]. cbn [fst snd] in *. subst ok. cbn [negb].
+  destruct (before_pop_wf s1 W1 N) as (W2 & D2 & _).
+  destruct (last_of (cur_coll s1)); [|exact W2].
+  apply (coll_event_wf _ W2 (dirty_none _ D2)).
+Qed.
+
+Lemma c_delkey_wf : forall o s, wf s -> wf (fst (c_delkey o s)).
+Proof.
+  intros o s W. unfold c_delkey.
+  pose proof (coll_touch_wf s W) as W1. pose proof (coll_touch_ok s W) as OK.
+  pose proof (coll_touch_none s W) as N.
+  destruct (coll_touch s) as [s1 ok]. cbn [fst snd] in *. subst ok. cbn [negb].
+  destruct (holder o (cur_coll s1)); [|exact W1]. apply (coll_event_wf _ W1 N).
+Qed.
+
+Lemma c_setdefault_wf : forall o s, wf s -> wf (fst (c_setdefault o s)).
+Proof.
+  intros o s W. unfold c_setdefault.
+  pose proof (coll_touch_wf s W) as W1. pose proof (coll_touch_ok s W) as OK.
+  pose proof (coll_touch_none s W) as N.
+  destruct (coll_touch s) as [s1 ok]. cbn [fst snd] in *. subst ok. cbn [negb].
+  destruct (same_key o (cur_coll s1)); [exact W1|]. apply (coll_event_wf _ W1 N).
+Qed.
+
+Lemma c_update_wf : forall l s, wf s -> wf (fst (c_update l s)).
+Proof.
+  intros l s W. unfold c_update.
+  pose proof (coll_touch_wf s W) as W1. pose proof (coll_touch_ok s W) as OK.
+  pose proof (coll_touch_none s W) as N.
+  destruct (coll_touch s) as [s1 ok]. cbn [fst snd] in *. subst ok. cbn [negb fst].
+  apply update_fold_wf; assumption.
+Qed.
+
+Lemma c_clear_wf : forall s, wf s -> wf (fst (c_clear s)).
+Proof.
+  intros s W. unfold c_clear.
+  pose proof (coll_touch_wf s W) as W1. pose proof (coll_touch_ok s W) as OK.
+  pose proof (coll_touch_none s W) as N.
+  destruct (coll_touch s) as [s1 ok]. cbn [fst snd] in *. subst ok. cbn [negb].
+  destruct (cur_coll s1); [exact W1|]. apply (coll_event_wf _ W1 N).
+Qed.
+
 Lemma step_wf : forall k o s, wf s -> wf (fst (step k o s)).
 Proof.
   intros k o s W. destruct o; cbn [step].
@@ -492,6 +586,13 @@ Proof.
   - apply c_get_wf; exact W.
   - apply flush_wf; exact W.
   - apply expire_wf; exact W.
+  - apply c_pop_wf; exact W.
+  - apply c_pop_wf; exact W.
+  - apply c_popitem_wf; exact W.
+  - apply c_delkey_wf; exact W.
+  - apply c_setdefault_wf; exact W.
+  - apply c_update_wf; exact W.
+  - apply c_clear_wf; exact W.
 Qed.
 
 Lemma run_wf : forall k ops s, wf s -> wf (fst (run k ops s)).
